@@ -245,6 +245,7 @@ pub fn run(args: &Args) -> i32 {
 		Some("bmsize") => bmsize_phase(args),
 		Some("build") => build_phase(args),
 		Some("run") => run_phase(args),
+		Some("serve") => serve_phase(args),
 		_ => {
 			eprintln!("segment e2e build|run");
 			2
@@ -437,6 +438,41 @@ fn build_phase(args: &Args) -> i32 {
 	for b in &blocks[1..=(archive.height as usize)] {
 		twin.process_block(b.clone(), Options::SKIP_POW).expect("process on twin");
 	}
+	// "split root" variants (receiver probe): an honest output / rangeproof segment that carries a pruned subtree
+	// root gets, IN ADDITION, the hashes of that root's two children (taken from the never-compacted twin). The
+	// extra hashes are redundant (the root does not depend on them), so the segment still validates; the receiver
+	// must either refuse it or end with a consistent backend.
+	let mut split_info = serde_json::Map::new();
+	{
+		let ts = twin.txhashset();
+		let ts = ts.read();
+		for tree in ["output", "rangeproof"] {
+			let n = seginfo[tree]["nseg"].as_u64().unwrap();
+			let mut made: Vec<Value> = vec![];
+			for idx in 0..n {
+				let path = format!("{}/{}_{}.seg", dir, tree, idx);
+				let bytes = match fs::read(&path) {
+					Ok(b) => b,
+					Err(_) => continue,
+				};
+				let r: Result<Option<(u64, Vec<u8>)>, String> = if tree == "output" {
+					let pm = ts.output_pmmr_at(&archive);
+					split_root_variant::<OutputIdentifier>(&bytes, archive.output_mmr_size, &|p| pm.get_from_file(p))
+				} else {
+					let pm = ts.rangeproof_pmmr_at(&archive);
+					split_root_variant::<RangeProof>(&bytes, archive.output_mmr_size, &|p| pm.get_from_file(p))
+				};
+				if std::env::var("VERIF_LOG_SPLIT").is_ok() {
+					eprintln!("split {} {}: {:?}", tree, idx, r.as_ref().map(|x| x.as_ref().map(|y| y.0)));
+				}
+				if let Ok(Some((pos0, b))) = r {
+					fs::write(format!("{}/split_{}_{}.seg", dir, tree, idx), &b).unwrap();
+					made.push(json!({"idx": idx, "root_pos0": pos0, "root_height": grin_core::core::pmmr::bintree_postorder_height(pos0)}));
+				}
+			}
+			split_info.insert(tree.to_string(), json!(made));
+		}
+	}
 	let twin_proj = json!({
 		"head": hx(&twin.head().unwrap().last_block_h),
 		"roots": roots_json(&twin, &archive),
@@ -456,7 +492,7 @@ fn build_phase(args: &Args) -> i32 {
 		"shape": shape, "blocks": n_blocks, "spends": n_spends, "compacted": compacted, "compact_at": compact_at,
 		"archive": seginfo, "stale": stale, "archive_header_roots": header_roots_json(&archive),
 		"twin": twin_proj, "source": src_proj, "commits": names, "zip_ok": zip_ok,
-		"outputs_total": commits.len(),
+		"outputs_total": commits.len(), "split": Value::Object(split_info),
 	});
 	fs::write(format!("{}/info.json", dir), serde_json::to_vec(&info).unwrap()).unwrap();
 	println!(
@@ -465,6 +501,50 @@ fn build_phase(args: &Args) -> i32 {
 			"nseg": TREES.iter().map(|t| seginfo[*t]["nseg"].clone()).collect::<Vec<_>>(), "zip_ok": zip_ok})
 	);
 	0
+}
+
+/// The segment plus the hashes of the two children of its highest pruned subtree root (height >= 1).
+fn split_root_variant<T: Clone + Readable + Writeable>(
+	bytes: &[u8],
+	mmr_size: u64,
+	hash_at: &dyn Fn(u64) -> Option<Hash>,
+) -> Result<Option<(u64, Vec<u8>)>, String> {
+	use grin_core::core::pmmr::bintree_postorder_height;
+	let seg: Segment<T> = from_bytes(bytes).map_err(|e| format!("{}", e))?;
+	let mut ps = PlainSeg::of(&seg);
+	let (first, last) = seg.segment_pos_range(mmr_size);
+	// a pruned subtree root inside the segment's own range: nothing of the segment lies beneath it (a fully
+	// pruned segment is represented by a root above its range and is left alone)
+	let cand = |p: u64| -> bool {
+		let h = bintree_postorder_height(p);
+		if h < 1 {
+			return false;
+		}
+		let sub_first = p + 2 - (1u64 << (h + 1));
+		sub_first >= first
+			&& p <= last
+			&& !ps.hash_pos.iter().any(|q| *q >= sub_first && *q < p)
+			&& !ps.leaf_pos.iter().any(|q| *q >= sub_first && *q < p)
+	};
+	let best = ps.hash_pos.iter().cloned().filter(|p| cand(*p)).max_by_key(|p| bintree_postorder_height(*p));
+	let pos0 = match best {
+		Some(p) => p,
+		None => return Ok(None),
+	};
+	let h = bintree_postorder_height(pos0);
+	let (left, right) = (pos0 - (1 << h), pos0 - 1);
+	let (lh, rh) = match (hash_at(left), hash_at(right)) {
+		(Some(l), Some(r)) => (l, r),
+		_ => return Ok(None),
+	};
+	let mut all: Vec<(u64, Hash)> = ps.hash_pos.iter().cloned().zip(ps.hashes.iter().cloned()).collect();
+	all.push((left, lh));
+	all.push((right, rh));
+	all.sort_by_key(|x| x.0);
+	ps.hash_pos = all.iter().map(|x| x.0).collect();
+	ps.hashes = all.iter().map(|x| x.1).collect();
+	let seg2 = ps.to_segment().map_err(|e| format!("{}", e))?;
+	Ok(Some((pos0, to_bytes(&seg2))))
 }
 
 // ---------------------------------------------------------------------------------------------
@@ -506,6 +586,218 @@ fn bmsize_phase(args: &Args) -> i32 {
 		let serving = acc.readonly_pmmr().unpruned_size();
 		out.put(&json!({"outputs": n, "output_mmr_size_ok": spec_out_size == h.output_mmr_size,
 			"spec": c["bitmap_mmr_size"], "desegmenter": desegmenter, "serving": serving}));
+	}
+	out.finish();
+	0
+}
+
+// ---------------------------------------------------------------------------------------------
+// serving side (spec/SegmentServe.tla): a node fed with the source's headers and blocks according to a plan
+// (headers may run ahead of bodies), asked for its segmenter at the plan's Serve steps; every segment it hands
+// out must validate against the roots of the header the segmenter is labelled with.
+
+/// All segments the segmenter hands out for a few heights, validated as a syncing node would validate them
+/// against `segmenter.header()`. Returns (served, invalid, errors at the default heights).
+fn check_served(segmenter: &grin_chain::txhashset::Segmenter) -> (u64, Vec<Value>, Vec<Value>) {
+	use grin_core::core::pmmr;
+	let header = segmenter.header().clone();
+	let mut served = 0u64;
+	let mut invalid: Vec<Value> = vec![];
+	let mut errors: Vec<Value> = vec![];
+	let n_outputs = pmmr::n_leaves(header.output_mmr_size);
+	let bitmap_mmr_size = pmmr::insertion_to_pmmr_index((n_outputs + 1023) / 1024);
+	let mut bitmap: Option<croaring::Bitmap> = None;
+	for height in [9u8, 0] {
+		let mut acc = BitmapAccumulator::new();
+		let mut complete = true;
+		for id in SegmentIdentifier::traversal_iter(bitmap_mmr_size, height) {
+			match segmenter.bitmap_segment(id) {
+				Ok((seg, output_root)) => {
+					served += 1;
+					if let Err(e) = seg.validate_with(bitmap_mmr_size, None, header.output_root, header.output_mmr_size, output_root, true) {
+						invalid.push(json!({"tree": "bitmap", "h": id.height, "idx": id.idx, "err": format!("{:?}", e)}));
+						complete = false;
+					}
+					let (_, _, _, _, chunks, _) = seg.parts();
+					for c in chunks {
+						if acc.append_chunk(c).is_err() {
+							complete = false;
+						}
+					}
+				}
+				Err(e) => {
+					complete = false;
+					if height == 9 {
+						errors.push(json!({"tree": "bitmap", "h": id.height, "idx": id.idx, "err": format!("{}", e)}));
+					}
+				}
+			}
+		}
+		if complete && bitmap.is_none() {
+			bitmap = acc.as_bitmap().ok();
+		}
+	}
+	let bitmap = match bitmap {
+		Some(b) => b,
+		None => {
+			invalid.push(json!({"tree": "bitmap", "h": 9, "idx": 0, "err": "no valid bitmap could be obtained"}));
+			croaring::Bitmap::new()
+		}
+	};
+	for height in [11u8, 3, 1] {
+		for id in SegmentIdentifier::traversal_iter(header.output_mmr_size, height) {
+			match segmenter.output_segment(id) {
+				Ok((seg, bitmap_root)) => {
+					served += 1;
+					if let Err(e) = seg.validate_with(header.output_mmr_size, Some(&bitmap), header.output_root, header.output_mmr_size, bitmap_root, false) {
+						invalid.push(json!({"tree": "output", "h": id.height, "idx": id.idx, "err": format!("{:?}", e)}));
+					}
+				}
+				Err(e) => {
+					if height == 11 {
+						errors.push(json!({"tree": "output", "h": id.height, "idx": id.idx, "err": format!("{}", e)}));
+					}
+				}
+			}
+			match segmenter.rangeproof_segment(id) {
+				Ok(seg) => {
+					served += 1;
+					if let Err(e) = seg.validate(header.output_mmr_size, Some(&bitmap), header.range_proof_root) {
+						invalid.push(json!({"tree": "rangeproof", "h": id.height, "idx": id.idx, "err": format!("{:?}", e)}));
+					}
+				}
+				Err(e) => {
+					if height == 11 {
+						errors.push(json!({"tree": "rangeproof", "h": id.height, "idx": id.idx, "err": format!("{}", e)}));
+					}
+				}
+			}
+		}
+		for id in SegmentIdentifier::traversal_iter(header.kernel_mmr_size, height) {
+			match segmenter.kernel_segment(id) {
+				Ok(seg) => {
+					served += 1;
+					if let Err(e) = seg.validate(header.kernel_mmr_size, None, header.kernel_root) {
+						invalid.push(json!({"tree": "kernel", "h": id.height, "idx": id.idx, "err": format!("{:?}", e)}));
+					}
+				}
+				Err(e) => {
+					if height == 11 {
+						errors.push(json!({"tree": "kernel", "h": id.height, "idx": id.idx, "err": format!("{}", e)}));
+					}
+				}
+			}
+		}
+	}
+	(served, invalid, errors)
+}
+
+fn serve_phase(args: &Args) -> i32 {
+	let dir = args.req("dir").to_string();
+	let work = args.req("work").to_string();
+	let g: Block = from_bytes(&fs::read(format!("{}/genesis.bin", dir)).unwrap()).expect("genesis");
+	let blocks = read_blocks(&format!("{}/blocks.bin", dir));
+	let plans = read_ndjson(args.req("plans"));
+	let mut out = NdWriter::create(args.req("out"));
+	for (pi, plan) in plans.iter().enumerate() {
+		let sdir = format!("{}/srv_{}", work, pi);
+		let _ = fs::remove_dir_all(&sdir);
+		let chain = init_chain(&format!("{}/chain_data", sdir), &g);
+		let mut events: Vec<Value> = vec![];
+		let mut tool_error: Option<String> = None;
+		for st in plan["steps"].as_array().unwrap() {
+			let k = st["k"].as_str().unwrap();
+			let mut ev = json!({"k": k});
+			match k {
+				"Headers" => {
+					let to = st["to"].as_u64().unwrap() as usize;
+					let hh = chain.header_head().unwrap();
+					let from = hh.height as usize + 1;
+					if to >= blocks.len() || from > to {
+						tool_error = Some(format!("Headers to {} from {}", to, from));
+						break;
+					}
+					let headers: Vec<BlockHeader> = blocks[from..=to].iter().map(|b| b.header.clone()).collect();
+					for chunk in headers.chunks(32) {
+						if let Err(e) = chain.sync_block_headers(chunk, hh, Options::SKIP_POW) {
+							tool_error = Some(format!("sync_block_headers: {}", e));
+						}
+					}
+					ev["to"] = json!(to);
+				}
+				"Blocks" => {
+					let to = st["to"].as_u64().unwrap() as usize;
+					let from = chain.head().unwrap().height as usize + 1;
+					if to >= blocks.len() || from > to {
+						tool_error = Some(format!("Blocks to {} from {}", to, from));
+						break;
+					}
+					for b in &blocks[from..=to] {
+						if let Err(e) = chain.process_block(b.clone(), Options::SKIP_POW) {
+							tool_error = Some(format!("process_block {}: {}", b.header.height, e));
+							break;
+						}
+					}
+					ev["to"] = json!(to);
+				}
+				"Compact" => {
+					let r = catch_unwind(AssertUnwindSafe(|| chain.compact()));
+					ev["res"] = json!(match r {
+						Ok(Ok(())) => "ok".to_string(),
+						Ok(Err(e)) => format!("err: {}", e),
+						Err(_) => "panic".to_string(),
+					});
+					ev["tail"] = json!(chain.tail().map(|t| t.height).unwrap_or(0));
+				}
+				"Serve" => {
+					let body = chain.head().unwrap();
+					let r = catch_unwind(AssertUnwindSafe(|| -> Result<Value, String> {
+						let seg = chain.segmenter().map_err(|e| format!("{}", e))?;
+						let h = seg.header().clone();
+						let (served, invalid, errors) = check_served(&seg);
+						// the header must be the one of the node's own chain at that height
+						let on_chain = chain.get_header_by_height(h.height).map(|x| x.hash() == h.hash()).unwrap_or(false);
+						// what a block-by-block node holds at that header (only if the serving node has the body)
+						Ok(json!({"for": h.height, "hash": hx(&h.hash()), "on_chain": on_chain, "served": served,
+							"n_invalid": invalid.len(), "invalid": invalid.into_iter().take(6).collect::<Vec<_>>(),
+							"n_errors": errors.len(), "errors": errors.into_iter().take(6).collect::<Vec<_>>()}))
+					}));
+					match r {
+						Ok(Ok(v)) => {
+							ev["res"] = json!("ok");
+							ev["seg"] = v;
+						}
+						Ok(Err(e)) => {
+							ev["res"] = json!("refused");
+							ev["err"] = json!(e);
+						}
+						Err(p) => {
+							ev["res"] = json!("panic");
+							ev["err"] = json!(crate::comp::panic_msg(&p));
+						}
+					}
+					let _ = body;
+				}
+				x => {
+					tool_error = Some(format!("step {}", x));
+				}
+			}
+			if tool_error.is_some() {
+				break;
+			}
+			ev["body"] = json!(chain.head().unwrap().height);
+			ev["hdr"] = json!(chain.header_head().unwrap().height);
+			events.push(ev);
+		}
+		let mut res = json!({"name": plan["name"], "events": events});
+		if let Some(e) = tool_error {
+			res["tool_error"] = json!(e);
+		}
+		out.put(&res);
+		drop(chain);
+		if args.get("keep").is_none() {
+			let _ = fs::remove_dir_all(&sdir);
+		}
 	}
 	out.finish();
 	0
@@ -564,7 +856,7 @@ fn corrupt_seg<T: Clone + Readable + Writeable>(
 		.rev()
 		.find(|i| required.map(|r| r.contains(&ps.leaf_pos[*i])).unwrap_or(true));
 	match kind {
-		"honest" | "stale" | "wrong_tree" => {}
+		"honest" | "stale" | "wrong_tree" | "split_root" => {}
 		"alt_leaf" => match pick {
 			Some(i) => alt(&mut ps, i),
 			None => return Err("unavailable".into()),
@@ -608,7 +900,7 @@ fn corrupt_seg<T: Clone + Readable + Writeable>(
 		x => panic!("kind {}", x),
 	}
 	let after = (ps.bytes_no_leaves(), ps.leaf_data.iter().map(|d| to_bytes(d)).collect::<Vec<_>>());
-	if !matches!(kind, "honest" | "stale" | "wrong_tree") && before == after {
+	if !matches!(kind, "honest" | "stale" | "wrong_tree" | "split_root") && before == after {
 		return Err("unavailable".into());
 	}
 	if direct {
@@ -800,16 +1092,30 @@ fn run_phase(args: &Args) -> i32 {
 		let stop = Arc::new(StopState::new());
 		let mut finalised_ok = false;
 		if sc["kind"].as_str() == Some("archive") {
-			let f = File::open(format!("{}/archive.zip", dir)).expect("zip");
-			let r = catch_unwind(AssertUnwindSafe(|| rx.chain.txhashset_write(rx.archive.hash(), f, &NoStatus)));
-			let res = match &r {
-				Ok(Ok(false)) => "ok".to_string(),
-				Ok(Ok(true)) => "ban".to_string(),
-				Ok(Err(e)) => format!("err: {}", e),
-				Err(_) => "panic".to_string(),
-			};
-			finalised_ok = res == "ok";
-			events.push(json!({"k": "ArchiveWrite", "res": res}));
+			// altered archives first (each must be refused and leave the node where it was), then the honest one
+			let mut zips: Vec<(String, String)> = vec![];
+			if let Some(vs) = sc["variants"].as_array() {
+				for v in vs {
+					zips.push((v["kind"].as_str().unwrap().to_string(), v["zip"].as_str().unwrap().to_string()));
+				}
+			}
+			zips.push(("honest".to_string(), format!("{}/archive.zip", dir)));
+			for (kind, zp) in zips {
+				let f = File::open(&zp).expect("zip");
+				let r = catch_unwind(AssertUnwindSafe(|| rx.chain.txhashset_write(rx.archive.hash(), f, &NoStatus)));
+				let (res, detail) = match &r {
+					Ok(Ok(false)) => ("ok".to_string(), String::new()),
+					Ok(Ok(true)) => ("refused".to_string(), "ban".to_string()),
+					Ok(Err(e)) => ("refused".to_string(), format!("{}", e)),
+					Err(p) => ("panic".to_string(), crate::comp::panic_msg(p)),
+				};
+				let head = rx.chain.head().unwrap();
+				events.push(json!({"k": "ArchiveWrite", "kind": kind, "res": res, "detail": detail, "head_height": head.height}));
+				if res == "ok" {
+					finalised_ok = true;
+					break;
+				}
+			}
 		} else {
 			// regression probe: Desegmenter::new used to panic for archive headers with <= 1024 outputs
 			let d = catch_unwind(AssertUnwindSafe(|| rx.chain.desegmenter(&rx.archive)));
@@ -922,6 +1228,15 @@ fn run_phase(args: &Args) -> i32 {
 			for st in sc["steps"].as_array().unwrap() {
 				match st["k"].as_str().unwrap() {
 					"Apply" => do_apply(&mut events, &mut complete),
+					// apply until a call fails (what state_sync.rs does: the first error ends the attempt)
+					"ApplyUntilErr" => {
+						for _ in 0..st["max"].as_u64().unwrap_or(4) {
+							do_apply(&mut events, &mut complete);
+							if events.last().map(|e| e["res"] != "ok").unwrap_or(true) {
+								break;
+							}
+						}
+					}
 					"Finalize" => {
 						if finish(&mut events, &mut complete, &mut do_apply) {
 							// finalised: nothing of the scenario (a restart after a refused attempt) applies any more
@@ -962,7 +1277,7 @@ fn run_phase(args: &Args) -> i32 {
 						let idx = st["idx"].as_u64().unwrap();
 						let kind = st["kind"].as_str().unwrap();
 						let from_tree = st["from"].as_str().unwrap_or(tree);
-						let prefix = if kind == "stale" { "stale_" } else { "" };
+						let prefix = if kind == "stale" { "stale_" } else if kind == "split_root" { "split_" } else { "" };
 						let path = format!("{}/{}{}_{}.seg", dir, prefix, from_tree, idx);
 						let bytes = match fs::read(&path) {
 							Ok(b) => b,
